@@ -104,6 +104,15 @@ Theorem C09_reentry :
 Proof. exact reentry. Qed.
 Print Assumptions C09_reentry.
 
+(* the hypothesis in terms of the input: any list of events with timestamps >= 0, of types whose
+   processing sets _resolve, whose sessions leave after the period they are plugged in *)
+Theorem C09_initial_state_ok :
+  forall (evs : list event) (mr : option Z),
+    Forall (fun e => 0 <= e_ts e /\ ev_ok e) evs ->
+    queue_ok ListQ dstate (init_sim_list evs mr).
+Proof. exact init_queue_ok. Qed.
+Print Assumptions C09_initial_state_ok.
+
 (* with the loop test of the code before commit e3d86c7 (`while not self.event_queue.empty()`) the
    theorem is false: one session, scheduler raises in the period that drains the queue *)
 Theorem C09_resume_old_guard_refuted :
